@@ -230,6 +230,13 @@ Lemma retr_script_in_matrix restart :
   script_ok RB ((if 0 <? restart then [HSeek restart] else []) ++ [HRead (-1)]) = true.
 Proof. destruct (0 <? restart); reflexivity. Qed.
 
+Lemma worker_scripts_in_matrix m restart blocks :
+  (m = WB \/ m = AB) ->
+  script_ok (if 0 <? restart then RPB else m)
+            ((if 0 <? restart then [HSeek restart] else []) ++ map HWrite blocks) = true
+  /\ script_ok RB ((if 0 <? restart then [HSeek restart] else []) ++ [HRead (-1)]) = true.
+Proof. intro H. split; [exact (store_script_in_matrix m restart blocks H)|exact (retr_script_in_matrix restart)]. Qed.
+
 (* ---- witnesses: every excluded cell is a real divergence of the two models (and, through the
    correspondence, of the real backends) ---- *)
 Definition tree_of (x : result * node) : node := snd x.
